@@ -135,7 +135,14 @@ func (c *Client) RoundTrip(call *Call) *Call {
 	if len(address) > 0 {
 		return c.transport().RoundTrip(address, call)
 	}
-	return c.transport().RoundTrip(target.address, call)
+	call = c.transport().RoundTrip(target.address, call)
+	// A refused dial is reported by the time RoundTrip returns; it has to
+	// mark the target dead here as well, or asynchronous traffic alone would
+	// never stop using a target that refuses connections.
+	if call.Error == ErrDial {
+		target.Alive(call.Error)
+	}
+	return call
 }
 
 // Call invokes the named function, waits for it to complete, and returns its error status.
@@ -195,7 +202,11 @@ func (c *Client) Go(serviceMethod string, args interface{}, reply interface{}, d
 	if len(address) > 0 {
 		return c.transport().Go(address, serviceMethod, args, reply, done)
 	}
-	return c.transport().Go(target.address, serviceMethod, args, reply, done)
+	call := c.transport().Go(target.address, serviceMethod, args, reply, done)
+	if call.Error == ErrDial {
+		target.Alive(call.Error)
+	}
+	return call
 }
 
 // Ping is NOT ICMP ping, this is just used to test whether a connection is still alive.
